@@ -94,8 +94,18 @@ pub async fn run_acb_app_to_delta_models(
     for (sec, mut sec_txs) in txs_by_sec {
         // A problem with one security's splits is that security's error; it
         // must not stop the other securities from being processed.
+        // An initial status is a holding of the default affiliate, even if
+        // that affiliate has no Tx: splits for all affiliates apply to it too.
+        let init_holders = if all_init_status.contains_key(&sec) {
+            vec![crate::portfolio::Affiliate::default()]
+        } else {
+            Vec::new()
+        };
         if let Err(e) =
-            crate::portfolio::splits::replace_global_security_splits(&mut sec_txs)
+            crate::portfolio::splits::replace_global_security_splits_with_holders(
+                &mut sec_txs,
+                &init_holders,
+            )
         {
             delta_results.insert(
                 sec,
